@@ -89,6 +89,14 @@ pub fn run_c12(rep: &Report) -> serde_json::Value {
             let erl = erl_cmp(&da, &db);
             let lib = a.cmp(b);
             *outcomes.entry(format!("{:?}", erl)).or_insert(0) += 1;
+            // the comparison operators and partial_cmp say what cmp says
+            {
+                let (ba, bb) = (erltf::borrowed::BorrowedTerm::from(a), erltf::borrowed::BorrowedTerm::from(b));
+                let ops_ok = |c: Ordering, lt: bool, le: bool, gt: bool, ge: bool, pc: Option<Ordering>| lt == (c == Ordering::Less) && le == (c != Ordering::Greater) && gt == (c == Ordering::Greater) && ge == (c != Ordering::Less) && pc == Some(c);
+                if !ops_ok(lib, a < b, a <= b, a > b, a >= b, a.partial_cmp(b)) || !ops_ok(ba.cmp(&bb), ba < bb, ba <= bb, ba > bb, ba >= bb, ba.partial_cmp(&bb)) {
+                    rep.violation("a comparison operator (<, <=, >, >=, partial_cmp) disagrees with cmp", json!({"a": show(a), "b": show(b), "cmp": format!("{:?}", lib), "owned_lt_le_gt_ge": [a < b, a <= b, a > b, a >= b], "zero_copy_lt_le_gt_ge": [ba < bb, ba <= bb, ba > bb, ba >= bb]}));
+                }
+            }
             // the zero-copy term type implements the same order
             let libb = erltf::borrowed::BorrowedTerm::from(a).cmp(&erltf::borrowed::BorrowedTerm::from(b));
             if !erl.admits(libb) && erl.admits(lib) {
